@@ -8,7 +8,9 @@ func init() {
 		Outside:     []string{"standalone and sentinel clients (same code path as singleClient in the helpers' type switch)", "more than 3 keys; short or malformed arrays from the server"},
 		Bounds:      map[string]any{"quick": "1..3 keys from a 5-key menu × 8 helpers × 2 client kinds", "thorough": "1..4 keys"},
 		specs: func(tier string) []specRef {
-			return []specRef{hsx(rootPkg, "VerifC31_helpers", P{"max_keys": q(tier, int64(3), 4)}, 3000000, 3000, "single", "generic")}
+			return []specRef{hsx(rootPkg, "VerifC31_helpers", P{"max_keys": q(tier, int64(3), 4)}, 3000000, 3000, "single", "generic"),
+				// MGetCache/JsonMGetCache ride on DoMultiCache: the real pipe + lru batch path with duplicates (shared with C11)
+				hsd(rootPkg, "VerifC11_batch", P{"max_keys": q(tier, int64(3), 4)}, 0, 3000000, 3000, "mget", "multicache")}
 		},
 	}
 }
